@@ -129,10 +129,15 @@ def _check_1d(desc, tier, V, st):
             except Exception as e:  # noqa
                 V('1d-exception:' + type(e).__name__, '%s coeffs=%s der=%d: %s: %s' % (key, name, der, type(e).__name__, e))
     # BSplines[i]: wrapped basis functions; periodic end-point identities
+    # all basis functions are requested first and used afterwards (a caller may keep several of them)
+    try:
+        held = [bs[i] for i in range(S.n)]
+    except Exception:  # noqa
+        held = None
     for i in range(S.n):
         st['evals'] += 1
         try:
-            b = bs[i]
+            b = held[i] if held is not None else bs[i]
         except Exception as e:  # noqa
             V('getitem-exception:' + type(e).__name__, '%s: BSplines[%d] raised %s' % (key, i, e))
             continue
